@@ -11,6 +11,8 @@ Structural clauses only:
          enumerate of the cluster list; n_clusters_ = its length; predict is an
          arg-reduction over an axis of that length on both paths
   C15.d  normalised mixture weights in the M-step
+  C15.l  a row of the E-step's responsibilities is never 0/0 (guarded divisor, or
+         exponentials shifted by the row maximum)
   C15.e  weight-scale typing: with sample_weight -> s * sample_weight every
          quantity of the mixture fit has degree 0 (weights are normalised before
          they meet an absolute constant)
@@ -76,6 +78,15 @@ def rule_a(ctx: Context, R: Reporter, hc: ClassInfo):
         all(cfg.dominates(incs[0].id, n) for n in body if n not in (lp.id, incs[0].id))
     R.check("C15.a", "the counter is incremented by one, unconditionally, first thing in every iteration", ok_inc, fit, incs[0].stmt if incs else lp.stmt,
             msg=f"{fit.short}: counter `{counter}` updates: {[unparse(i.stmt) for i in incs]}", key="counter-increment")
+    other = [d for ds in flow.defs_at.values() for d in ds if d.name == counter and d.kind not in ("assign", "aug", "param")]
+    seen_other = set()
+    for d in other:
+        if id(d.stmt) in seen_other:
+            continue
+        seen_other.add(id(d.stmt))
+        R.check("C15.a", "nothing but its own initialisation and increment writes the loop counter", False, fit, d.stmt if d.stmt is not None else lp.stmt,
+                msg=f"{fit.short}: `{norm_text(d.stmt)[:60] if d.stmt is not None else counter}` re-binds the split loop's counter `{counter}` ({d.kind}): an inner loop that re-uses the name resets "
+                    f"the count, so the cap max_iterations on the number of splits is never reached", key="counter-clobbered")
     init = [d for ds in flow.defs_at.values() for d in ds if d.name == counter and d.kind == "assign"]
     R.check("C15.a", "the counter starts at 0", len(init) == 1 and const_value(init[0].value) == 0 and not init[0].node.loops, fit, init[0].stmt if init else lp.stmt,
             msg=f"{fit.short}: `{counter}` initialised by {[unparse(d.stmt) for d in init]}", key="counter-init")
@@ -666,6 +677,51 @@ def rule_k(ctx: Context, R: Reporter, gc: ClassInfo):
     R.floor("C15.k", "mixture methods receiving data and weights", n, 3)
 
 
+def rule_l(ctx: Context, R: Reporter, gc: ClassInfo):
+    """C15.l  a row of responsibilities is never 0/0.  Every division of the E-step's responsibility matrix by its row sums
+    either adds a positive constant to the divisor, or the matrix was built as exp(L - max(L, axis=1, keepdims=True)) so
+    that every row contains a term equal to one.  A shift by the *global* maximum (or none) lets a point far below the
+    densest one underflow in every column; its row becomes nan and spreads to weights, means and covariances."""
+    es = gc.methods.get("_e_step")
+    if es is None:
+        raise AnalysisError("C15.l: the mixture model has no _e_step")
+    flow = flow_of(es.node)
+    n = 0
+
+    def row_sum(e):
+        return isinstance(e, ast.Call) and ((dotted(e.func) in ("np.sum", "numpy.sum")) or (isinstance(e.func, ast.Attribute) and e.func.attr == "sum")) \
+            and any(k.arg == "axis" and const_value(k.value) in (1, -1) for k in e.keywords)
+
+    for st in walk_no_nested(es.node):
+        tgt = div = None
+        if isinstance(st, ast.AugAssign) and isinstance(st.op, ast.Div) and isinstance(st.target, ast.Name):
+            tgt, div = st.target.id, st.value
+        elif isinstance(st, ast.Assign) and isinstance(st.value, ast.BinOp) and isinstance(st.value.op, ast.Div) and isinstance(st.value.left, ast.Name) and len(st.targets) == 1 \
+                and isinstance(st.targets[0], ast.Name):
+            tgt, div = st.value.left.id, st.value.right
+        if tgt is None or not any(row_sum(x) for x in ast.walk(div)):
+            continue
+        n += 1
+        guarded = isinstance(div, ast.BinOp) and isinstance(div.op, ast.Add) and any(isinstance(x, ast.Constant) and isinstance(x.value, (int, float)) and x.value > 0 for x in (div.left, div.right))
+        shifted = False
+        at = flow.node_containing(st)
+        for d in (flow.reaching(at, tgt) if at is not None else []):
+            v = d.value if d.kind == "assign" else None
+            if isinstance(v, ast.Call) and dotted(v.func) in ("np.exp", "numpy.exp") and v.args and isinstance(v.args[0], ast.BinOp) and isinstance(v.args[0].op, ast.Sub):
+                sh = v.args[0].right
+                if isinstance(sh, ast.Name):
+                    ds2 = flow.reaching(d.node, sh.id)
+                    if len(ds2) == 1 and ds2[0].kind == "assign" and ds2[0].value is not None:
+                        sh = ds2[0].value
+                if isinstance(sh, ast.Call) and (dotted(sh.func) in ("np.max", "numpy.max", "np.amax", "numpy.amax") or (isinstance(sh.func, ast.Attribute) and sh.func.attr == "max")) \
+                        and any(k.arg == "axis" and const_value(k.value) in (1, -1) for k in sh.keywords) and any(k.arg == "keepdims" and const_value(k.value) is True for k in sh.keywords):
+                    shifted = True
+        R.check("C15.l", "a row of responsibilities is never 0/0 (guarded divisor, or exponentials shifted by the row maximum)", guarded or shifted, es, st,
+                msg=f"{es.short}: `{unparse(st)[:70]}` divides by the bare row sums and the rows are not shifted by their own maximum: a point whose density underflows in every component "
+                    f"gives 0/0 = nan, which spreads to the mixture weights, means and covariances", key="row-normalisation-unguarded")
+    R.floor("C15.l", "row normalisations of the responsibility matrix in the E-step", n, 1)
+
+
 def run(ctx: Context, R: Reporter):
     hc = hier_class(ctx)
     gc = gmm_class(ctx, hc)
@@ -680,6 +736,7 @@ def run(ctx: Context, R: Reporter):
     R.guard(rule_i, ctx, R, gc, hc)
     R.guard(rule_j, ctx, R, gc, hc)
     R.guard(rule_k, ctx, R, gc)
+    R.guard(rule_l, ctx, R, gc)
 
 
 def rule_f(ctx: Context, R: Reporter, gc, hc):
@@ -708,7 +765,7 @@ def _scale_memo_variant(with_reset: bool):
 
 
 def variants():
-    from ..variants import Variant, normalisation_twins, alpha_rename, delete_stmt, insert_after, replace_expr, replace_stmt
+    from ..variants import Variant, normalisation_twins, alpha_rename, delete_stmt, insert_after, insert_before, replace_expr, replace_stmt
 
     cl = "tempest/cluster.py"
     H = "HierarchicalGaussianMixture"
@@ -719,6 +776,9 @@ def variants():
         Variant("e-benign-weights-float", "benign", replace_stmt(cl, "GaussianMixture.fit", "sample_weight = np.asarray(sample_weight)", "sample_weight = np.asarray(sample_weight, dtype=float)")),
         Variant("c-errstate-raise", "bad", replace_stmt(cl, f"{H}._compute_gaussian_probabilities", "log_prob_norm = logsumexp(log_probabilities, axis=1, keepdims=True)", "with np.errstate(all='raise'):\n    log_prob_norm = logsumexp(log_probabilities, axis=1, keepdims=True)"), ["C15.c"]),
         Variant("a-cap-or-default", "bad", replace_stmt(cl, f"{H}.__init__", "self.max_iterations = max_iterations", "self.max_iterations = max_iterations or 1000"), ["C15.a"], quick=True),
+        Variant("l-estep-guard-dropped", "bad", replace_stmt(cl, "GaussianMixture._e_step", "responsibilities /= np.sum(responsibilities, axis=1, keepdims=True) + 1e-10", "responsibilities /= np.sum(responsibilities, axis=1, keepdims=True)"), ["C15.l"], quick=True),
+        Variant("l-benign-estep-guard-bound-first", "benign", replace_stmt(cl, "GaussianMixture._e_step", "responsibilities /= np.sum(responsibilities, axis=1, keepdims=True) + 1e-10", "responsibilities /= 1e-10 + np.sum(responsibilities, axis=1, keepdims=True)")),
+        Variant("a-counter-reused-by-inner-loop", "bad", insert_before(cl, f"{H}.fit", "iteration += 1", "for iteration in range(1, self.n_init):\n    pass"), ["C15.a"], quick=True),
         Variant("a-counter-conditional", "bad", replace_stmt(cl, f"{H}.fit", "iteration += 1", "if best_split is not None:\n    iteration += 1"), ["C15.a", "ANALYSIS-ERROR"]),
         Variant("a-loop-le", "bad", replace_expr(cl, f"{H}.fit", "iteration < self.max_iterations", "iteration <= self.max_iterations"), ["C15.a"], quick=True),
         Variant("b-child1-twice", "bad", replace_expr(cl, f"{H}.fit", "len(child1) >= min_points and len(child2) >= min_points", "len(child1) >= min_points and len(child1) >= min_points"), ["C15.b"], quick=True),
